@@ -80,7 +80,7 @@ def asleep_during_flush(ctx: Ctx, chk) -> None:
     for f in tables.all_handler_defs(ctx, include_wrappers=True):
         if f in scope:
             continue
-        if any(isinstance(n, ast.Call) and isinstance(n.func, ast.Attribute) and n.func.attr in flush_names for n in ctx.own_nodes(f)):
+        if any(isinstance(n, ast.Call) and ((isinstance(n.func, ast.Attribute) and n.func.attr in flush_names) or (isinstance(n.func, ast.Name) and n.func.id in flush_names)) for n in ctx.own_nodes(f)):
             scope.append(f)
     n = 0
     for f in scope:
@@ -384,6 +384,17 @@ def mut1(ctx: Ctx, chk) -> None:
     chk.floor(rule, "functions binding buffer entries", n, 1)
 
 
+def callee_names_safe(ctx: Ctx, f, c) -> set:
+    from .common import callee_names
+
+    if not isinstance(c.func, (ast.Name, ast.Attribute)):
+        return set()
+    try:
+        return callee_names(ctx, f, c)
+    except AnalysisError:
+        return set()
+
+
 def sleep1(ctx: Ctx, chk) -> None:
     rule = "SLEEP-1"
     chk.rule(rule, "a wake handler marks the node sleeping=True before it starts the flush and never stores another value: while the flush is suspended in a write, a concurrent send for that node is parked (and found by the re-validation) instead of overtaking the older value that is still being flushed")
@@ -394,7 +405,10 @@ def sleep1(ctx: Ctx, chk) -> None:
     for f in ctx.prog.all_functions():
         if f.fq in flush_fqs:
             continue
-        calls = [c for c in ctx.own_nodes(f) if isinstance(c, ast.Call) and isinstance(c.func, ast.Attribute) and isinstance(c.func.value, ast.Name) and callee_names(ctx, f, c) & flush_fqs]
+        if not any(isinstance(c, ast.Call) and callee_names_safe(ctx, f, c) & flush_fqs for c in ctx.own_nodes(f)):
+            continue
+        f = ctx.inl(f, lambda h: not h.name.startswith("handle_") and h.fq not in flush_fqs)  # bookkeeping helpers written out
+        calls = [c for c in ctx.own_nodes(f) if isinstance(c, ast.Call) and ((isinstance(c.func, ast.Attribute) and isinstance(c.func.value, ast.Name)) or isinstance(c.func, ast.Name)) and callee_names(ctx, f, c) & flush_fqs]
         if not calls:
             continue
         g = CFG(f.node)
